@@ -52,6 +52,10 @@ class TcpServerConnection(TcpConnection):
             # Ref https://github.com/PyCQA/pylint/issues/3691
             verify_mode: ssl.VerifyMode = ssl.VerifyMode.CERT_REQUIRED,     # pylint: disable=E1101
     ) -> None:
+        # IPv6 literals are kept within brackets by the url parser,
+        # certificates name the bare address.
+        if hostname is not None and hostname.startswith('[') and hostname.endswith(']'):
+            hostname = hostname[1:-1]
         ctx = ssl.create_default_context(ssl.Purpose.SERVER_AUTH, cafile=ca_file)
         ctx.options |= DEFAULT_SSL_CONTEXT_OPTIONS
         # pylint: disable=E1101
